@@ -124,6 +124,42 @@ def handle : Handler := fun m j =>
           | some (Node.link t) => Json.str ("l" ++ String.ofList t)
           | none => Json.str "none"
       return obj [("r", Json.arr (ps.map show1).toArray)]
+  | "path.session" => some do
+      -- one tensor (loc, offset, length), a sequence of steps:
+      --   {"op":"fs","fs":{..}} | {"op":"base","base":".."} | {"op":"release"} | {"op":"call","ep":".."}
+      let cwdS ← gs j "cwd"
+      let kfuel ← getNat j "kfuel"
+      let fuel ← getNat j "fuel"
+      let loc ← gs j "loc"
+      let off ← getNat j "offset"
+      let len ← getNat j "length"
+      let steps ← getArr j "steps"
+      let mut stepsL : List Step := []
+      for s in steps do
+        let op ← s.getObjValAs? String "op"
+        match op with
+        | "fs" => stepsL := Step.setFS (← parseFS (← s.getObjVal? "fs")) :: stepsL
+        | "base" => stepsL := Step.setBase (← s.getObjValAs? String "base").toList :: stepsL
+        | "release" => stepsL := Step.release :: stepsL
+        | "call" => stepsL := Step.call (← parseEP (← s.getObjValAs? String "ep")) :: stepsL
+        | _ => throw s!"session op {op}"
+      let s0 : Sess := { fs := { node := fun _ => none, dnlink := fun _ => 2, nlink := fun _ => 0,
+                                 data := fun _ => [] }, base := [], st := TState.fresh }
+      let log := (runSess kfuel fuel cwdS (comps cwdS) loc off len s0 stepsL.reverse).2
+      let mut out : Array Json := #[]
+      for e in log do
+        let v := match e.events with
+          | Ev.check v :: _ => verdictJ v
+          | _ => Json.null
+        let opened : Json := match e.events with
+          | [_, Ev.openEv _ (some i)] => toJson i
+          | [_, Ev.openEv _ none] => Json.str "fail"
+          | _ => Json.null
+        let res := match e.res with
+          | ReadResult.raised => obj [("r", "raised"), ("v", v), ("opened", opened)]
+          | ReadResult.ok bs => obj [("r", "ok"), ("v", v), ("opened", opened), ("bytes", bytesJ bs)]
+        out := out.push res
+      return obj [("r", Json.arr out)]
   | _ => none
 
 end IrVerif.Drive.Path
